@@ -421,8 +421,20 @@ def execute(scn, ctx):
             probe("group_without_class")
         audit(o, models[-1], viol, {"phase": "construction"}, "after construction", full=False)
 
+    held = []  # results handed out earlier (group Scores, matrices, samples): later calls must not change them
+
+    def hold(step_, what, value):
+        held.append((step_, what, value, M.canon(value)))
+        if len(held) > 5:
+            held.pop(0)
+
     for step, op in enumerate(scn["ops"]):
         kind = op["op"]
+        for hv in list(held):
+            if M.canon(hv[2]) != hv[3]:
+                viol.append({"invariant": "C12.result_stable", "tags": {"op": kind},
+                             "detail": f"the result of {hv[1]} at op {hv[0]} was changed by later calls (before op {step})"})
+                held.remove(hv)
         if kind == "reseed":
             seam.seed(op["seed"])
             trace.append([step, "reseed"])
@@ -593,6 +605,7 @@ def execute(scn, ctx):
                     # the sample is a GroupScores in its own right: its own view must be coherent
                     audit(s, m2, viol, tags, f"sample of op {step} rep {rep}", full=rep == 0)
                     adopted = (s, m2)
+                    hold(step, "bootstrap_sample", s)
             res = None
             if op.get("adopt"):
                 if adopted is not None:
@@ -626,6 +639,8 @@ def execute(scn, ctx):
                 viol.append({"invariant": "C12.sample_raises", "tags": tags,
                              "detail": f"bootstrap_metric({op['name']}) raised {type(res['value']).__name__}: {res['value']} [op {step}]"})
         # ---- bookkeeping common to all ops
+        if res is not None and res["ok"]:
+            hold(step, kind, res["value"])
         if res is not None:
             n_draws += res["draws"]
             n_lines += res["line_events"]
